@@ -35,6 +35,11 @@
 (*                 for a status outside the range (= C17 RetryP, flows mode); the  *)
 (*                 re-sent request is a request like any other (selected, walked,  *)
 (*                 charged to the quotas again)                                    *)
+(*  S7 cache       ReadCache answers from the cache only with a response WriteCache   *)
+(*                 saw for the same key parts, until ttl_seconds have passed; a   *)
+(*                 fresh stored 2xx response is served (= X02 XCacheP).  A cached *)
+(*                 answer is an answer like GenerateResponse's: the request walk  *)
+(*                 ends, the slot is dropped, the response walk continues from it *)
 (*  S5 safety      handling a transaction never crashes the engine (C05)          *)
 (* It is a specification of *recorded whole-engine histories*: GatewayTrace walks *)
 (* through the processor executions of every transaction (observed at the         *)
@@ -50,14 +55,17 @@
 (*   -> <<side, header name, value>>] (a "set" rule on a request / response header) *)
 (*   StRange : [Filter key -> <<from, to>>] (status_code_range),                   *)
 (*   RetryA : [Retry key -> attempts]                                              *)
+(*   RCache : [ReadCache key -> header name of its one caching key part],          *)
+(*   WCache : [WriteCache key -> the same], CacheTtl = ttl_seconds                 *)
 EXTENDS FlowGraphP
 
-CONSTANTS Cfg, QIds, QKind, QMax, QW, LimQ, GenStatus, SetH, StRange, RetryA, TxIds, SqIds
+CONSTANTS Cfg, QIds, QKind, QMax, QW, LimQ, GenStatus, SetH, StRange, RetryA, RCache, WCache, CacheTtl, TxIds, SqIds
 
 VARIABLES now,
           lo, hi, charged, admitted, fwlast,        \* FixedWindowP (fixed-window quotas)
           inflight, deadline, cqlast,               \* ConcurrencyP (concurrency quotas)
-          rmode, rA, rAF, rranges, rB, rcnt, rlast  \* RetryP (Retry processors)
+          rmode, rA, rAF, rranges, rB, rcnt, rlast, \* RetryP (Retry processors)
+          cnow, cands, held, open, cum, clast       \* XCacheP (ReadCache / WriteCache of the one caching flow)
 
 Fixed == {q \in QIds : QKind[q] = "fixed"}
 Conc  == {q \in QIds : QKind[q] = "conc"}
@@ -79,6 +87,7 @@ cqvars == <<inflight, deadline, cqlast>>
 
 \* ------------------------------------------------------------------ selection (S1 = C03)
 F == INSTANCE FilterP
+Act == INSTANCE ActionsP        \* C07 (used from the cache and the answer sections)
 
 SetOf(s) == {s[i] : i \in 1..Len(s)}
 FFlow(j, name, typ) == [name |-> name, pat |-> <<j.pat[1], j.pat[2]>>, m |-> SetOf(j.m), h |-> SetOf(j.h),
@@ -116,6 +125,26 @@ LimVerdict(e) == IF e.out = "below_limit" THEN "admit" ELSE "refuse"
 Exposed(seq, q) ==
     LET I == {i \in 1..Len(seq) : IsLim(seq[i]) /\ LimQ[seq[i].key] = q}
     IN IF I = {} THEN "any" ELSE LimVerdict(seq[CHOOSE i \in I : \A j \in I : i <= j])
+
+\* ------------------------------------------------------------------ answering processors
+\* a processor execution that answers the request: GenerateResponse, or ReadCache with a hit
+Answers(e) == e.sid = "" /\ e.dir = "req" /\ (KindAny(Cfg, e.key) = "Gen" \/ (e.key \in DOMAIN RCache /\ e.out = "cache_hit"))
+ReqGens(seq) == SelectSeq(seq, Answers)
+\* FlowGraphP knows one answering kind ("Gen": ends the request walk, the response walk resumes at its response connections).  A
+\* ReadCache answers only on a hit: for a transaction with a hit the configuration is read with that processor as an answering
+\* one and its response connections (declared under the condition cache_hit) as the connections of the answer.
+HitKeys(seq) == {seq[i].key : i \in {j \in 1..Len(seq) : seq[j].sid = "" /\ seq[j].dir = "req" /\ seq[j].key \in DOMAIN RCache /\ seq[j].out = "cache_hit"}}
+CfgFor(seq) ==
+    LET H == HitKeys(seq)
+        Proc(p) == IF p.key \in H THEN [p EXCEPT !.kind = "Gen"] ELSE p
+        Conn(c) == IF c.f.k = "P" /\ c.f.n \in H THEN [c EXCEPT !.f = [c.f EXCEPT !.c = ""]] ELSE c
+        Flow(fl) == [fl EXCEPT !.procs = [j \in 1..Len(fl.procs) |-> Proc(fl.procs[j])],
+                               !.res = [j \in 1..Len(fl.res) |-> Conn(fl.res[j])]]
+    IN IF H = {} THEN Cfg ELSE [Cfg EXCEPT !.flows = [i \in 1..Len(Cfg.flows) |-> Flow(Cfg.flows[i])]]
+AnsweredEarly(seq) == Len(ReqGens(seq)) > 0
+ExpectedStatus(seq) == IF AnsweredEarly(seq) THEN (IF ReqGens(seq)[1].key \in DOMAIN GenStatus THEN GenStatus[ReqGens(seq)[1].key]
+                                                  ELSE ReqGens(seq)[1].acts[1].st) ELSE 0
+GenHeaders == {<<"Content-Type", "text/plain">>}
 
 \* ------------------------------------------------------------------ retries (S6 = C17, flows mode)
 \* one budget per (Retry processor, sequence id): every processor bounds its own retries
@@ -158,13 +187,53 @@ StatusFilterOK(e) == \A i \in 1..Len(e.seq) :
     (e.seq[i].sid = "" /\ e.seq[i].key \in DOMAIN StRange /\ e.seq[i].dir = "res" /\ e.dir = "res")
         => (e.seq[i].out = "hit") = (StRange[e.seq[i].key][1] <= e.x.status /\ e.x.status <= StRange[e.seq[i].key][2])
 
-\* ------------------------------------------------------------------ the answer (S4 = C07)
-A == INSTANCE ActionsP
+\* ------------------------------------------------------------------ the cache (S7 = X02 XCacheP)
+\* The executor gives the ReadCache and the WriteCache of the caching flow one common store (in this build every processor owns a
+\* private one - X02's deviation "private_stores" - and nothing would ever be served); one key part, so no joined-key collisions.
+XC == INSTANCE XCacheP WITH Ttl <- CacheTtl, RecMax <- -1, MaxMb <- 100, MiB <- 1048576, OverMul <- 6, OverAdd <- 2048,
+        Dev <- {}, now <- cnow, last <- clast
+cvars == <<cnow, cands, held, open, cum, clast>>
+CacheInit == cnow = 0 /\ cands = {} /\ held = {} /\ open = <<>> /\ cum = 0 /\ clast = [ev |-> "init"]
+CacheReset == cnow' = 0 /\ cands' = {} /\ held' = {} /\ open' = <<>> /\ cum' = 0 /\ clast' = [ev |-> "reset"]
+CacheAdv(d) == cnow' = cnow + 500 * d /\ clast' = [ev |-> "adv"] /\ UNCHANGED <<cands, held, open, cum>>
+HdrVal(x, name) == LET V == {p[2] : p \in {q \in SetOf(x.hdr) : q[1] = name}} IN IF V = {} THEN <<"absent">> ELSE <<"v", CHOOSE v \in V : TRUE>>
+CacheIdx(e) == {i \in 1..Len(e.seq) : e.seq[i].sid = "" /\ e.seq[i].dir = "req" /\ e.seq[i].key \in DOMAIN RCache}
+CacheKeyOf(e, i) == <<HdrVal(e.x, RCache[e.seq[i].key])>>
+CacheOutOf(s) == IF s.out = "cache_hit" /\ Len(s.acts) = 1
+                 THEN [kind |-> "hit", st |-> s.acts[1].st, body |-> <<"lit", s.acts[1].b>>, h |-> Act!Pairs(s.acts[1].h)] ELSE XC!Miss
+\* a request that consulted the cache (at most once: one caching flow): is the answer one XCacheP permits now?
+CacheReqOK(e) == \A i \in CacheIdx(e) : XC!Accepts(CacheKeyOf(e, i), CacheOutOf(e.seq[i]))
+\* G7 (observation): a request answered early (by a hit or by another flow) passes the response side of every selected flow; a
+\* WriteCache met there fails ("response not found"), the whole transaction ends with an error, the engine hands NO answer to the
+\* proxy and the request travels on to the provider.  Its response is then stored like that of any request that went on.
+CacheHdr == RCache[CHOOSE k \in DOMAIN RCache : TRUE]
+CacheReqStep(e) ==
+    IF CacheIdx(e) = {}
+    \* G8 (observation): the caching flow's ReadCache was not consulted - its filter refused the request (a header / query-parameter
+    \* constraint) or an earlier flow's processors came first - but the request goes on, and on the response side, where header and
+    \* query constraints are not applied (C03 zone Z3), the flow is selected and WriteCache stores the response under the key of the
+    \* stored request: it is served later to requests the filter accepts.  Modelled as it is: every request that goes on may be stored.
+    THEN IF DOMAIN RCache # {"-"} /\ (~AnsweredEarly(e.seq) \/ e.outcome = "error")
+         THEN /\ open' = [t \in DOMAIN open \cup {e.id} |-> IF t = e.id THEN <<HdrVal(e.x, CacheHdr)>> ELSE open[t]]
+              /\ UNCHANGED <<cnow, cands, held, cum, clast>>
+         ELSE UNCHANGED cvars
+    ELSE LET i == CHOOSE j \in CacheIdx(e) : TRUE
+             k == CacheKeyOf(e, i)
+             o == CacheOutOf(e.seq[i])
+             goeson == o.kind = "miss" \/ e.outcome = "error"                       \* G7
+         IN /\ held' = XC!HeldAfter(k, o)
+            /\ open' = IF goeson THEN [t \in DOMAIN open \cup {e.id} |-> IF t = e.id THEN k ELSE open[t]] ELSE open
+            /\ clast' = [ev |-> "req", id |-> e.id]
+            /\ UNCHANGED <<cnow, cands, cum>>
+\* a response that WriteCache saw
+CacheSaw(e) == \E i \in 1..Len(e.seq) : e.seq[i].sid = "" /\ e.seq[i].dir = "res" /\ e.seq[i].key \in DOMAIN WCache
+CacheResStep(e) ==
+    IF CacheSaw(e) /\ e.outcome = "ok"
+    THEN XC!Response(e.id, e.x.status, <<"lit", e.body>>, SetOf(e.x.hdr), e.bsz, e.hsz)
+    ELSE UNCHANGED cvars
 
-ReqGens(seq) == SelectSeq(seq, LAMBDA e : e.sid = "" /\ e.dir = "req" /\ KindAny(Cfg, e.key) = "Gen")
-AnsweredEarly(seq) == Len(ReqGens(seq)) > 0
-ExpectedStatus(seq) == IF AnsweredEarly(seq) THEN GenStatus[ReqGens(seq)[1].key] ELSE 0
-GenHeaders == {<<"Content-Type", "text/plain">>}
+\* ------------------------------------------------------------------ the answer (S4 = C07)
+
 
 IsSet(key, side) == key \in DOMAIN SetH /\ SetH[key][1] = side
 SetPair(key) == <<SetH[key][2], SetH[key][3]>>
@@ -189,17 +258,19 @@ ProcActsOK(e, i) ==
     IN
     IF s.sid # "" THEN AllNoop
     ELSE IF KindAny(Cfg, s.key) = "Gen" /\ s.dir = "req"
-         THEN Len(as) = 1 /\ as[1].k = "early" /\ as[1].st = GenStatus[s.key] /\ as[1].b = s.key /\ A!Pairs(as[1].h) = GenHeaders
+         THEN Len(as) = 1 /\ as[1].k = "early" /\ as[1].st = GenStatus[s.key] /\ as[1].b = s.key /\ Act!Pairs(as[1].h) = GenHeaders
     ELSE IF IsSet(s.key, "req") /\ s.dir = "req"
-         THEN Len(as) = 1 /\ as[1].k \in {"modreq", "modh"} /\ SetPair(s.key) \in A!Pairs(as[1].h)
-              /\ A!Pairs(as[1].h) \ {SetPair(s.key)} \subseteq own
+         THEN Len(as) = 1 /\ as[1].k \in {"modreq", "modh"} /\ SetPair(s.key) \in Act!Pairs(as[1].h)
+              /\ Act!Pairs(as[1].h) \ {SetPair(s.key)} \subseteq own
     ELSE IF IsSet(s.key, "res") /\ s.dir = "res" /\ e.dir = "res"
-         THEN Len(as) = 1 /\ as[1].k = "modresp" /\ as[1].st = e.x.status /\ SetPair(s.key) \in A!Pairs(as[1].h)
-              /\ A!Pairs(as[1].h) \ {SetPair(s.key)} \subseteq own
+         THEN Len(as) = 1 /\ as[1].k = "modresp" /\ as[1].st = e.x.status /\ SetPair(s.key) \in Act!Pairs(as[1].h)
+              /\ Act!Pairs(as[1].h) \ {SetPair(s.key)} \subseteq own
     ELSE IF IsSet(s.key, "res") /\ s.dir = "res"                                     \* G5
          THEN Len(as) <= 1 /\ \A j \in 1..Len(as) : as[j].k \in {"noop", "modresp"}
+    ELSE IF s.key \in DOMAIN RCache /\ s.dir = "req"           \* what a hit carries is judged by XCacheP (CacheReqOK)
+         THEN IF s.out = "cache_hit" THEN Len(as) = 1 /\ as[1].k = "early" ELSE Len(as) <= 1 /\ AllNoop
     ELSE IF s.key \in DOMAIN RetryA /\ s.dir = "res" /\ e.dir = "res" /\ s.out = "retry"
-         THEN Len(as) = 1 /\ as[1].k = "retry" /\ A!Pairs(as[1].h) = {}
+         THEN Len(as) = 1 /\ as[1].k = "retry" /\ Act!Pairs(as[1].h) = {}
     ELSE IF s.key \in DOMAIN RetryA THEN as = <<>>          \* "failed" hands back nothing; on the walk of an early response see G6
     ELSE AllNoop
 
@@ -213,13 +284,14 @@ SetNames(seq, d) == {SetH[seq[i].key][2] : i \in {j \in 1..Len(seq) : seq[j].sid
 
 ReqAnswerOK(e) ==
     IF AnsweredEarly(e.seq)
-    THEN e.out.early /\ e.out.st = ExpectedStatus(e.seq) /\ e.out.body = ReqGens(e.seq)[1].key /\ A!Pairs(e.out.rh) = GenHeaders
-    ELSE ~e.out.early /\ \A n \in SetNames(e.seq, "req") : <<n, LastSet(e.seq, "req", n)>> \in A!Pairs(e.out.qh)
+    THEN LET a == ReqGens(e.seq)[1].acts[1] IN        \* (what a GenerateResponse / a ReadCache hands back is judged by ProcActsOK / XCacheP)
+         e.out.early /\ e.out.st = ExpectedStatus(e.seq) /\ e.out.st = a.st /\ e.out.body = a.b /\ Act!Pairs(e.out.rh) = Act!Pairs(a.h)
+    ELSE ~e.out.early /\ \A n \in SetNames(e.seq, "req") : <<n, LastSet(e.seq, "req", n)>> \in Act!Pairs(e.out.qh)
 ResAnswerOK(e) ==
     /\ ~e.out.early
     \* the proxy is asked to send the request again only if a Retry processor said so (whether a retry or a modification wins when
     \* both were asked for is left open by C07)
     /\ e.out.retry => \E k \in RetrySeen(e) : RetryOut(e, k) = "retry"
-    /\ ~e.out.retry => \A n \in SetNames(e.seq, "res") : <<n, LastSet(e.seq, "res", n)>> \in A!Pairs(e.out.rh)
+    /\ ~e.out.retry => \A n \in SetNames(e.seq, "res") : <<n, LastSet(e.seq, "res", n)>> \in Act!Pairs(e.out.rh)
     /\ (SetNames(e.seq, "res") # {} /\ ~e.out.retry) => e.out.st = e.x.status
 ================================================================================
